@@ -269,6 +269,9 @@ func runC09(r *Report) {
 	}
 
 	ruleCrcAgree(r)
+	ruleStackErrflow(r)
+	ruleHeaderCrc(r)
+	ruleExactLength(r)
 }
 
 // endsInNilReturn: following jumps from b ends in a return with constant-nil error.
